@@ -237,7 +237,7 @@ func (c *ctx) fill(v reflect.Value, exact bool) {
 	case t == tRaw:
 		return
 	case t == tTime:
-		ts := time.Unix(c.rnd.Int63n(4102444800), int64(c.pick(0, 0, 123456789))).In(time.FixedZone("", c.pick(0, 0, 3600, -18000, 19800)))
+		ts := time.Unix(c.rnd.Int63n(4102444800), int64(c.pick(0, 0, 123456789))).In(time.FixedZone("", c.pick(0, 0, 3600, -18000, 19800, -12600, -34200, -1800, 20700)))
 		v.Set(reflect.ValueOf(backend.ISO8601Time(ts)))
 		return
 	case t == tFreq:
@@ -458,7 +458,7 @@ func drvBJSON(c *ctx) error {
 				hn = c.pick(127, 128, 255, 256, 257, 300, 512, 1000, 1024, 4096)
 			}
 			c.emit(hexEvent(c, c.bytesN(hn)))
-			ts := time.Unix(c.rnd.Int63n(4102444800), int64(c.pick(0, 1, 500000000, 999999999))).In(time.FixedZone("", c.pick(0, 3600, -18000, 19800, 45*60, 1172, -3599, 30, 86399-3600*10)))
+			ts := time.Unix(c.rnd.Int63n(4102444800), int64(c.pick(0, 1, 500000000, 999999999))).In(time.FixedZone("", c.pick(0, 3600, -18000, 19800, 45*60, 1172, -3599, 30, 86399-3600*10, -12600, -34200, -1800, -(11*3600+45*60), 12*3600+45*60, -60, 60, -(3600+60))))
 			c.emit(timeEvent(ts))
 			if i%8 == 0 {
 				for _, ev := range backendReuseEvents(c) {
